@@ -18,7 +18,7 @@ func init() {
 		Explanation: "lexical well-formedness of what the DIMACS/OPB printers emit: (R18.1) in every printer function, text items emitted by a loop (string accumulation, writes to a writer/builder, slices handed to strings.Join) meet at a boundary that holds whitespace, so two tokens of the whitespace-tokenised formats are never glued together; " +
 			"(R18.2) the clause count of every `p cnf` header is the sum of the trip counts of the loops that write one non-comment line each; (R18.3) every fixed token in the printers' constant texts is a token the corresponding parser compares against (or a sign accepted by strconv.Atoi).",
 		NotDecided: "equality of models and costs after re-parsing; numeric values printed; the parser's reaction to each token.",
-		Rules:      []ruleFn{ruleR18_1, ruleR18_2, ruleR18_3, ruleR18_4, ruleR18_5, ruleR18_6, ruleR18_7, ruleR18_8, ruleR18_9},
+		Rules:      []ruleFn{ruleR18_1, ruleR18_2, ruleR18_3, ruleR18_4, ruleR18_5, ruleR18_6, ruleR18_7, ruleR18_8, ruleR18_9, ruleR18_10, ruleR18_11},
 	})
 }
 
